@@ -197,6 +197,6 @@ def run(pid, tier, seed):
         for k, what in replay(pid, rc["case"]):
             camp.fail(k, what, rc["case"])
     camp.merge(core.run_shards(shard, [dict(seed=core.seed_of(seed, s, 18), n=n) for s in range(shards)]))
-    return core.finish(pid, tier, seed, camp, RULE, t0, assumptions=[
+    return core.finish(pid, tier, seed, camp, RULE, t0, replay_fn=replay, assumptions=[
         "names the tool treats specially (keywords, main, environ, defined, __attribute__, size_t-like standard names, the include guard) are never renamed",
     ])
